@@ -8,8 +8,8 @@ pub const REGISTRY_KINDS: [&str; 8] = ["double-drop", "corrupt-drop", "corrupt-c
 
 pub fn kinds_for(prop: &str) -> Vec<&'static str> {
     let mut k: Vec<&'static str> = match prop {
-        "C01" => vec!["model", "garbage"],
-        "C02" => vec!["model", "garbage", "iter"],
+        "C01" => vec!["model", "garbage", "clone-count"],
+        "C02" => vec!["model", "garbage", "iter", "clone-count"],
         "C03" => REGISTRY_KINDS.to_vec(),
         "C08" => vec!["model", "garbage", "clone-count", "shared-storage", "handle", "meta", "double-drop", "corrupt-drop", "dup", "dead-visible", "leak", "value-accounting"],
         "C09" => vec!["model", "clone-count", "lazy", "dup", "double-drop", "handle"],
@@ -91,7 +91,7 @@ pub fn run(ctx: &mut Ctx) {
             crate::special::c08_clone_from(ctx);
         }
         "C09" => {
-            cfgs.retain(|c| c.cloneable && c.elem.needs_drop);
+            cfgs.retain(|c| c.cloneable);
             fam::exhaustive(ctx, "lazy", &cfgs, l.min(5), false, &fam::lazy_ops);
         }
         "C10" => {
